@@ -66,3 +66,22 @@ def first_diff(x, y):
     if d:
         return d[0][0], 'only-right'
     return None
+
+
+def clip(x, lo, hi):
+    """x intersected with the single interval [lo, hi]; O(log n + hits)"""
+    import bisect
+    if not x:
+        return []
+    # first interval whose end >= lo
+    k = bisect.bisect_left(x, (lo, lo))
+    if k > 0 and x[k - 1][1] >= lo:
+        k -= 1
+    out = []
+    n = len(x)
+    while k < n and x[k][0] <= hi:
+        a, b = max(x[k][0], lo), min(x[k][1], hi)
+        if a <= b:
+            out.append((a, b))
+        k += 1
+    return out
